@@ -1645,6 +1645,34 @@ fn main() {
         }
     }
 
+    {
+        // directed shadowing triples (after a wave-7 seed: a local CONST looked up before a SHARED variable of the
+        // same base name): a global declaration, then inside a subprogram a local declaration and a use (both
+        // orders), then the use again in the main module
+        let qs = [Q::Int, Q::Str];
+        let small = atoms("A", &qs, false);
+        let decls: Vec<Stmt> = small.iter().filter(|a| matches!(a, Stmt::Dim(..) | Stmt::Const(..))).cloned().collect();
+        let uses: Vec<Stmt> = small.iter().filter(|a| matches!(a, Stmt::Assign(..) | Stmt::Print(..))).cloned().collect();
+        let mut scripts: Vec<Vec<Item>> = vec![];
+        for g in &decls {
+            for l in &decls {
+                for u in &uses {
+                    for kind in [0usize, 1, 4] {
+                        scripts.push(assemble(None, "A", &[g.clone()], Some(kind), &[l.clone(), u.clone()], &[u.clone()]));
+                        scripts.push(assemble(None, "A", &[g.clone()], Some(kind), &[u.clone(), l.clone(), u.clone()], &[]));
+                    }
+                }
+            }
+        }
+        let count = scripts.len();
+        check_batch(&mut rep, &mut asm, &scripts, "shadow3", 1, if thorough { 400 } else { 60 });
+        total_scripts += count;
+        rep.exhaustive_parts.push(format!(
+            "{} scripts: every global declaration atom x every local declaration atom x every use atom (base name A, qualifiers %, $ + bare), declaration and use inside 3 subprogram shapes in both orders, use repeated in the main module",
+            count
+        ));
+    }
+
     lap("exhaustive families done", &asm);
     // ---- 5. scripts: random (all five qualifiers, DEFtype anywhere, several subprograms, mixed case) --
     {
